@@ -707,7 +707,9 @@ def split_write_rhs_reads_lhs(r):
 
 def replace_ignores_callee_assertions(r):
     """replace() never checks the callee's assertions at the new call site"""
-    return r.get("op") == "replace" and r.get("kind") == "call_pred"
+    # the obligation the solver violated may be a consequence (an access inside the callee that the
+    # assertion was guarding); the replay names the first thing that fails concretely: the assertion
+    return r.get("op") == "replace" and (r.get("kind") == "call_pred" or str(r.get("detail", "")).startswith("call_pred"))
 
 
 def replace_block_longer_than_callee(r):
